@@ -15,7 +15,7 @@ KCOQ = {"RX": "KRX", "RY": "KRY", "RZ": "KRZ", "P": "KP", "RyPhase": "KRyPhase",
 def gen_history(rng, n, length):
     ops, hs, ncirc = [], [], 0          # hs: arity per handle
     pend = 0
-    def vals(k): return [float2bits(rng.uniform(-3.2, 3.2)) for _ in range(k)]
+    def vals(k): return [float2bits(rng.choice([rng.uniform(-3.2, 3.2), rng.uniform(-3.2, 3.2), rng.uniform(6.4, 12.4), -rng.uniform(6.4, 12.4)])) for _ in range(k)]     # also beyond one turn
     for k in (1, 2, 3):
         ops.append({"o": "new", "vals": vals(k)}); hs.append(k)
     for _ in range(length):
